@@ -12,6 +12,9 @@ import ParryModel.C16.Theorems8
 import ParryModel.C16.Theorems9
 import ParryModel.C16.Theorems10
 import ParryModel.C16.Theorems11
+import ParryModel.C16.Theorems12
+import ParryModel.C16.Theorems13
+import ParryModel.C16.Theorems14
 /-!
 # C16 property theorems: ear clipping and Hertel–Mehlhorn, for every linearly ordered field.
 
@@ -223,5 +226,101 @@ theorem hertel_mehlhorn_pts_spec (pts : Array (V2 K)) (tris : Array (Nat × Nat 
   obtain ⟨t, ht, hxt⟩ := (hertel_mehlhorn_sound sq pts tris).2.2 p hp x hx
   obtain ⟨a, b, c⟩ := hidx t ht
   rcases hxt with rfl | rfl | rfl <;> assumption
+
+/-- **C16, end to end: the only `None` of the pipeline is the triangulation's** (corrected function) — every polygon whose
+vertices are pairwise farther apart than `ε`.  Whenever ear clipping answers `Some(out)`, `decompose_trimesh` on that mesh
+answers `Some(compound)`: thin pieces and tiny-but-representable edges never make the decomposition fail. -/
+theorem polygon_decompose_isSome (pts : Array (V2 K)) (out : Array (Nat × Nat × Nat))
+    (hsep : letI := fieldNum K sq
+      ∀ i j, i < pts.size → j < pts.size → i ≠ j →
+        (C10.eps : K) * C10.eps < ((pt pts j).x - (pt pts i).x) * ((pt pts j).x - (pt pts i).x)
+          + ((pt pts j).y - (pt pts i).y) * ((pt pts j).y - (pt pts i).y)) :
+    letI := fieldNum K sq
+    triangulateEarClipping pts = some out → (decomposeTrimesh pts out).isSome := by
+  letI := fieldNum K sq
+  intro h
+  obtain ⟨_, hidx, _, _⟩ := ear_clipping_sound sq pts out h
+  exact decompose_trimesh_isSome_of_separated sq pts out hidx hsep
+
+/-- **C16 (a)+(c) on strictly convex input: the whole pipeline answers** (corrected `decompose_trimesh`).  For a strictly
+convex counter-clockwise polygon with `n ≥ 3` vertices pairwise farther apart than `ε`, `TriMesh::from_polygon` returns a mesh
+and `Compound::decompose_trimesh` on it returns a compound — whatever the aspect ratio (needles) and however short the edges
+(chamfers). -/
+theorem convex_polygon_decompose_isSome (pts : Array (V2 K))
+    (hsep : letI := fieldNum K sq
+      ∀ i j, i < pts.size → j < pts.size → i ≠ j →
+        (C10.eps : K) * C10.eps < ((pt pts j).x - (pt pts i).x) * ((pt pts j).x - (pt pts i).x)
+          + ((pt pts j).y - (pt pts i).y) * ((pt pts j).y - (pt pts i).y)) :
+    letI := fieldNum K sq
+    3 ≤ pts.size → StrictConvexRange (pt pts) pts.size →
+    ∃ out, triangulateEarClipping pts = some out ∧ (decomposeTrimesh pts out).isSome := by
+  letI := fieldNum K sq
+  intro h3 hc
+  obtain ⟨out, hout⟩ := ear_clipping_succeeds_convex sq pts h3 hc
+  exact ⟨out, hout, polygon_decompose_isSome sq pts out hsep hout⟩
+
+/-- twice the signed area of a shape of the compound -/
+def shapeArea2 : Piece K → K
+  | .triangle a b c => shoelace2 [a, b, c]
+  | .polygon points _ => shoelace2 points.toList
+
+/-- the shape keeps every point of its piece (nothing pruned) -/
+def Unpruned (piece : Array Nat) : Piece K → Prop
+  | .triangle _ _ _ => True
+  | .polygon points _ => points.size = piece.size
+
+private theorem shapeOf_area (pts : Array (V2 K)) (piece : Array Nat) (s : Piece K)
+    (h : ShapeOf sq pts piece s) (hu : Unpruned piece s) :
+    letI := fieldNum K sq
+    shapeArea2 s = shoelace2 (piece.toList.map (pt pts)) := by
+  letI := fieldNum K sq
+  cases s with
+  | triangle a b c =>
+    obtain ⟨h3, rfl, rfl, rfl⟩ := h
+    obtain ⟨l, hl⟩ : ∃ l, piece.toList = l := ⟨_, rfl⟩
+    have hlen : l.length = 3 := by rw [← hl]; simpa using h3
+    match l, hlen with
+    | [x, y, z], _ =>
+      have e : piece = #[x, y, z] := by
+        apply Array.ext'; simpa using hl
+      subst e
+      simp [shapeArea2, pt]
+  | polygon points normals =>
+    obtain ⟨_, hsub, _, _⟩ := h
+    have hlen : points.toList.length = (piece.toList.map (pt pts)).length := by
+      have : points.size = piece.size := hu
+      simpa using this
+    have := hsub.eq_of_length hlen
+    simp [shapeArea2, this]
+
+private theorem forall2_area (pts : Array (V2 K)) :
+    ∀ (ps : List (Array Nat)) (shapes : List (Piece K)),
+      List.Forall₂ (ShapeOf sq pts) ps shapes → List.Forall₂ Unpruned ps shapes →
+      (shapes.map shapeArea2).sum = (ps.map fun p => shoelace2 (p.toList.map (@pt K (fieldNum K sq) pts))).sum := by
+  intro ps shapes h1
+  induction h1 with
+  | nil => intro _; simp
+  | cons hab _ ih =>
+    intro h2
+    cases h2 with
+    | cons hu hrest =>
+      simp only [List.map_cons, List.sum_cons]
+      rw [ih hrest, shapeOf_area sq pts _ _ hab hu]
+
+/-- **C16 (c), the compound tiles the polygon exactly when nothing is pruned** (corrected `decompose_trimesh`) — every
+input polygon.  If ear clipping answers `Some(out)`, `decompose_trimesh` answers `Some(shapes)` and every `ConvexPolygon`
+shape kept all points of its Hertel–Mehlhorn piece (always the case when no piece corner is straight within the 1.73e-4 rad
+pruning tolerance, and for every piece that went through the `from_convex_polyline_unmodified` fallback), then the signed
+areas of the shapes add up to the polygon's shoelace area exactly. -/
+theorem polygon_decompose_area_exact (pts : Array (V2 K)) (out : Array (Nat × Nat × Nat)) (shapes : List (Piece K)) :
+    letI := fieldNum K sq
+    triangulateEarClipping pts = some out → decomposeTrimesh pts out = some shapes →
+    List.Forall₂ Unpruned (hertelMehlhornIdx pts out).toList shapes →
+    (shapes.map shapeArea2).sum = shoelace2 pts.toList := by
+  letI := fieldNum K sq
+  intro h hd hu
+  have h1 := decompose_trimesh_pieces sq pts out shapes hd
+  rw [forall2_area sq pts _ _ h1 hu]
+  exact (polygon_pipeline_sound sq pts out h).1
 
 end C16
